@@ -31,7 +31,10 @@ META = dict(
          "encoder); private keys are written with write_private_key_file / write_private_key with no, ASCII, "
          "unicode and bytes passphrases and loaded back (equal, signs, signature accepted by the original public "
          "key and by an independent verifier; loading without or with a wrong passphrase must raise); ==/hash "
-         "are compared across private, public-only and certificate-bearing objects of one key and across "
+         "are compared across private, public-only and certificate-bearing objects of one key (two to four "
+         "different certificate blobs per key: synthetic ones with different nonce/serial/key id/validity plus the "
+         "bundled *-cert.pub, loaded via load_certificate(Message|string|path), class(data=cert blob), from_path; "
+         "pairwise ==/!=/hash, transitivity through a plain object, set/dict de-duplication) and across "
          "different keys; every creating open of a new key file is observed by the audit hook / os.open wrapper "
          "under umasks 0, 0o022, 0o077 and random ones and the final stat is checked. Holds for the executions "
          "produced only.",
@@ -568,6 +571,142 @@ def cert_checks(ctx, fams):
             same_key(ctx, fam, plain, k, "certificate-bearing vs plain", dict(form=form))
 
 
+# --------------------------------------------------------------------------
+# B2. several *different* certificates for one key
+# --------------------------------------------------------------------------
+def synthetic_cert_blob(rng, fam, variant):
+    """An OpenSSH certificate blob (PROTOCOL.certkeys layout) for fam's public key. paramiko parses only the
+    type name, the nonce and the public key fields; the rest is carried along as opaque bytes. Every call
+    yields different nonce / serial / key id / validity / principals."""
+    import struct
+
+    rd = ko.Reader(fam.blob)
+    name = rd.string()
+    keyfields = fam.blob[rd.pos:]
+    S = ko.w_string
+    nonce = rbytes(rng, rng.choice([16, 32]))
+    tail = (struct.pack(">Q", rng.getrandbits(64)) + struct.pack(">I", rng.choice([1, 2]))
+            + S("key-id-%s-%d" % (variant, rng.randrange(10 ** 6)))
+            + S(b"".join(S("user%d" % rng.randrange(100)) for _ in range(rng.randrange(3))))
+            + struct.pack(">Q", rng.randrange(2 ** 32)) + struct.pack(">Q", rng.choice([2 ** 64 - 1, rng.getrandbits(40)]))
+            + S(b"") + S(S("permit-pty") + S(b"")) + S(b"")
+            + S(S("ssh-ed25519") + S(rbytes(rng, 32))) + S(S("ssh-ed25519") + S(rbytes(rng, 64))))
+    return S(name + b"-cert-v01@openssh.com") + S(nonce) + keyfields + tail
+
+
+def cert_line(blob, comment="synthetic"):
+    return "%s %s %s\n" % (ko.blob_name(blob), base64.b64encode(blob).decode(), comment)
+
+
+def cert_variants(ctx, fams, tmpdir):
+    """For each key: >= 2 different certificate blobs loaded into separate objects of the same key through
+    every route; all of them, and the plain objects, must be one equivalence class with one hash."""
+    import copy
+
+    rng = ctx.rng
+    for fi, fam in enumerate(fams):
+        cls = ko.key_class(fam.kind)
+        certs = [("synA", synthetic_cert_blob(rng, fam, "A")), ("synB", synthetic_cert_blob(rng, fam, "B"))]
+        if not ctx.quick:
+            certs.append(("synC", synthetic_cert_blob(rng, fam, "C")))
+        if fam.cert_blob is not None:
+            certs.append(("bundled", fam.cert_blob))
+        bundled = [(r, pw) for r, _, pw, _ in ko.BUNDLED if "bundled:" + r == fam.label]
+        signers = fam.signers()
+        objs = {}  # cert label -> [(route, object)]
+        for label, blob in certs:
+            lst = objs.setdefault(label, [])
+            try:
+                k = cls(data=fam.blob)
+                k.load_certificate(Message(blob))
+                lst.append(("public+load_certificate(Message)", k))
+                k = cls(data=fam.blob)
+                k.load_certificate(cert_line(blob))
+                lst.append(("public+load_certificate(string)", k))
+                lst.append(("class(data=cert blob)", cls(data=blob)))
+                lst.append(("class(msg=cert blob)", cls(msg=Message(blob))))
+                if signers:
+                    k = copy.copy(signers[0][1])
+                    k.load_certificate(Message(blob))
+                    lst.append(("private+load_certificate(Message)", k))
+                if bundled:
+                    rel, pw = bundled[0]
+                    d = os.path.join(tmpdir, "cp%d_%s" % (fi, label))
+                    os.makedirs(d, exist_ok=True)
+                    kp = os.path.join(d, "id_key")
+                    shutil.copy(ko.bundled_path(rel), kp)
+                    with open(kp + "-cert.pub", "w") as f:
+                        f.write(cert_line(blob))
+                    lst.append(("from_path", paramiko.PKey.from_path(kp, passphrase=pw.encode() if pw else None)))
+                    k = cls.from_private_key_file(kp, pw)
+                    k.load_certificate(kp + "-cert.pub")
+                    lst.append(("private-file+load_certificate(path)", k))
+            except Exception as e:
+                ctx.violation("certificate for the key's own public key rejected: " + ko.exc_sig(e),
+                              "loading a well-formed certificate blob of the same key raised",
+                              dict(kind=fam.kind, family=fam.label, cert=label, blob=blob, error=repr(e)[:200]))
+                continue
+            for route, k in lst:
+                ctx.count("cert_objects_built")
+                if k.public_blob is None or k.public_blob.key_blob != blob:
+                    ctx.violation("certificate not attached to the key object (%s)" % route, "public_blob missing/different",
+                                  dict(kind=fam.kind, family=fam.label, cert=label))
+        plain = [(o, k) for o, k in fam.objs if getattr(k, "public_blob", None) is None][:3]
+        labels = list(objs)
+        # pairs: same key, different certificate
+        for i in range(len(labels)):
+            for j in range(i + 1, len(labels)):
+                la, lb = labels[i], labels[j]
+                for ra, ka in objs[la]:
+                    for rb, kb in objs[lb]:
+                        ctx.case(("certpair", fam.kind, la, lb, ra, rb, fam.blob),
+                                 sample=samp("certpair", ra != rb, dict(scenario="same key, different certificates",
+                                                                        kind=fam.kind, family=fam.label, cert_a=la, cert_b=lb,
+                                                                        route_a=ra, route_b=rb, blob_a=certs[i][1], blob_b=certs[j][1])))
+                        ctx.count("cert_pairs_same_key_different_cert")
+                        same_key(ctx, fam, ka, kb, "different certificates, one key", dict(cert_a=la, cert_b=lb, route_a=ra, route_b=rb))
+                        # transitivity through a plain object
+                        for po, pk in plain[:1]:
+                            ctx.count("cert_transitivity_checks")
+                            try:
+                                ab, ap, pb = ka == kb, ka == pk, pk == kb
+                            except Exception:
+                                continue
+                            if ap and pb and not ab:
+                                ctx.violation("key equality is not transitive across certificates (%s)" % tag(fam),
+                                              "certA == plain and plain == certB but certA != certB",
+                                              dict(kind=fam.kind, family=fam.label, cert_a=la, cert_b=lb, route_a=ra, route_b=rb,
+                                                   plain=po))
+        # same certificate through different routes, and certificate vs plain
+        for la in labels:
+            lst = objs[la]
+            for i in range(len(lst)):
+                for j in range(i + 1, len(lst)):
+                    ctx.count("cert_pairs_same_cert")
+                    same_key(ctx, fam, lst[i][1], lst[j][1], "one certificate, two routes", dict(cert=la, a=lst[i][0], b=lst[j][0]))
+                for po, pk in plain:
+                    ctx.count("cert_vs_plain_pairs")
+                    same_key(ctx, fam, pk, lst[i][1], "certificate-bearing vs plain", dict(cert=la, route=lst[i][0], plain=po))
+        # set / dict de-duplication over everything that holds this key
+        everything = [k for _, k in fam.objs] + [k for l in labels for _, k in objs[l]]
+        ctx.count("cert_dedup_checks")
+        try:
+            nset = len(set(everything))
+            d = {}
+            for k in everything:
+                d[k] = d.get(k, 0) + 1
+            ndict = len(d)
+            found = all(k in d for k in everything)
+        except Exception as e:
+            ctx.violation("hashing key objects raised " + ko.exc_sig(e), "set()/dict of key objects raised",
+                          dict(kind=fam.kind, family=fam.label, error=repr(e)[:200]))
+            continue
+        if nset != 1 or ndict != 1 or not found:
+            ctx.violation("objects of one key with different certificates are not de-duplicated (%s)" % tag(fam),
+                          "set/dict holds %d/%d entries for %d objects of one key" % (nset, ndict, len(everything)),
+                          dict(kind=fam.kind, family=fam.label, set_size=nset, dict_size=ndict, objects=len(everything)))
+
+
 def run(ctx):
     if ctx.guard(ko.selfcheck) is None:
         return
@@ -584,6 +723,7 @@ def run(ctx):
             public_roundtrip(ctx, fam)
         equality_matrix(ctx, fams)
         cert_checks(ctx, fams)
+        cert_variants(ctx, fams, tmpdir)
         umasks = [0, 0o022, 0o077, 0o002, 0o027]
         deadline = ctx.deadline(120, 420)
         for fam in fams:
@@ -635,3 +775,6 @@ def run(ctx):
     ctx.require("final_stats_judged", 30)
     ctx.require("sign_verify_checks", 60)
     ctx.require("cert_loads", 9)
+    ctx.require("cert_pairs_same_key_different_cert", 400)
+    ctx.require("cert_transitivity_checks", 400)
+    ctx.require("cert_dedup_checks", 10)
